@@ -6,6 +6,7 @@ import (
 	"os/exec"
 	"strings"
 	"sync"
+	"time"
 
 	"github.com/z7zmey/php-parser/internal/verifhook"
 	"github.com/z7zmey/php-parser/verifmc/core"
@@ -96,6 +97,11 @@ func runRacePass(c *core.Ctx) {
 	if c.Thorough() {
 		runs = 16
 	}
+	// one run of the -race binary is one long item: the wall watchdog of ordinary items does not apply (a loaded machine
+	// must not turn a slow run into an alarm)
+	oldWall := c.WallPerItem
+	c.WallPerItem = 20 * time.Minute
+	defer func() { c.WallPerItem = oldWall }()
 	s := ""
 	var err error
 	for rot := 0; rot < runs; rot++ {
